@@ -588,7 +588,7 @@ class Arc(Term):
         s = self.start
         e = self.end
         r = e - s
-        c = s + r
+        c = e  # center of the circle: exactly the end (s + (e - s) is rounded and may leave the end outside the arc)
         left = s > e
         right = s < e
         y = (
